@@ -3,6 +3,7 @@ package dsim
 import (
 	"fmt"
 	"io"
+	"sort"
 	"strings"
 	"sync"
 	"sync/atomic"
@@ -661,6 +662,13 @@ func (w *srvWorld) runInner() {
 			}
 		}
 		w.mu.Lock()
+		// canonical order (arrival order of simultaneously woken serve goroutines is the runtime's business)
+		sort.Slice(w.parked, func(i, j int) bool {
+			if w.parked[i].conn != w.parked[j].conn {
+				return w.parked[i].conn < w.parked[j].conn
+			}
+			return w.parked[i].seq < w.parked[j].seq
+		})
 		for _, inv := range w.parked {
 			acts = append(acts, act{kind: "release", inv: inv, w: 5})
 		}
@@ -785,6 +793,7 @@ func (w *srvWorld) runInner() {
 			// only timer in this world. 2 s of fake time is the liveness bound.
 			if e.Quiesce() {
 				e.Advance(2 * time.Second)
+				e.Quiesce() // Advance returns at the first library activity; let it finish before looking
 				e.Act("clock", "+2s")
 				if w.lis.Pending() == 0 {
 					w.needClock = false
@@ -833,6 +842,18 @@ func (w *srvWorld) runInner() {
 		}
 	}
 	w.drain()
+}
+
+// sortedParkedLocked returns the parked handlers in canonical (connection, message) order (w.mu held).
+func (w *srvWorld) sortedParkedLocked() []*invocation {
+	p := append([]*invocation{}, w.parked...)
+	sort.Slice(p, func(i, j int) bool {
+		if p[i].conn != p[j].conn {
+			return p[i].conn < p[j].conn
+		}
+		return p[i].seq < p[j].seq
+	})
+	return p
 }
 
 func (w *srvWorld) release(inv *invocation) {
@@ -1108,10 +1129,11 @@ func (w *srvWorld) drain() {
 		}
 		if durable := e.Quiesce(); durable && w.lis.Pending() > 0 {
 			e.Advance(2 * time.Second)
+			e.Quiesce() // Advance returns at the first library activity; let it finish
 			progress = true
 		}
 		w.mu.Lock()
-		parked := append([]*invocation{}, w.parked...)
+		parked := w.sortedParkedLocked()
 		yl := append([]*yieldPark{}, w.yielded...)
 		nDef := len(w.deferred)
 		w.mu.Unlock()
@@ -1147,6 +1169,7 @@ func (w *srvWorld) drain() {
 		for r := 0; r < 12; r++ {
 			if e.Quiesce() && w.lis.Pending() > 0 {
 				e.Advance(2 * time.Second)
+				e.Quiesce()
 			}
 			for _, x := range w.conns {
 				if x.connected && x.sc.Stalled() {
@@ -1154,7 +1177,7 @@ func (w *srvWorld) drain() {
 				}
 			}
 			w.mu.Lock()
-			parked := append([]*invocation{}, w.parked...)
+			parked := w.sortedParkedLocked()
 			nDef := len(w.deferred)
 			w.mu.Unlock()
 			if nDef > 0 && !w.flushDeferred(nDef) {
@@ -1187,7 +1210,7 @@ func (w *srvWorld) teardown() {
 		w.mu.Lock()
 		yl := append([]*yieldPark{}, w.yielded...)
 		w.yielded = nil
-		parked := append([]*invocation{}, w.parked...)
+		parked := w.sortedParkedLocked()
 		w.parked = nil
 		w.mu.Unlock()
 		for _, yp := range yl {
